@@ -158,6 +158,7 @@ class Window:
         self.dirmoves = []          # (side, old, new)
         self.nops = [0, 0]
         self.dirty = set()          # objects created or written in this window (create/mkdir/write/rename destinations)
+        self.origin = [{}, {}]      # current path -> path the object had at the start of the window (renamed objects only)
 
 
 class World:
@@ -169,6 +170,7 @@ class World:
         self.exp_valid = True
         self.win = Window()
         self.ever_deleted = [set(), set()]
+        self.last_gone = set()
         self.path_style = path_style
         self.retired = set()        # paths consumed by conflict gadgets: never touched again
         self.guard_retouch = False  # when set: no op may touch an object created/written earlier in this window
@@ -278,6 +280,13 @@ class World:
             self.win.reused |= (occ & self.win.vac[s])
         for p in vac:
             self.win.vac_type[s][p] = "dir" if tree.is_dir(p) else "file"
+        org = self.win.origin[s]
+        if op == "rename":
+            moved = [a[0]] + list(tree.subtree(a[0]))
+            olds = {q: org.pop(q, q) for q in moved}
+            for q, o0 in olds.items():
+                org[a[1] + q[len(a[0]):]] = o0
+        gone_origins = {org[p] for p in vac if p in org} if op in ("delete", "rmtree") else set()
         tree.apply(op, *a)
         if self.exp_valid:
             try:
@@ -295,7 +304,9 @@ class World:
         elif op == "rename":
             win.dirty.add(a[1])
         if op in ("delete", "rmtree"):
-            self.ever_deleted[s] |= vac
+            # the index may still know a renamed-then-deleted object under the name it had when the window opened
+            self.ever_deleted[s] |= vac | gone_origins
+            self.last_gone = vac | gone_origins
         if op == "rename" and Wpre:
             win.dirmoves.append((s, a[0], a[1]))
 
